@@ -72,43 +72,70 @@ pub fn derive_relations(rng: &mut Rng, p: &PProblem, rep: &Report) -> Vec<Value>
             continue;
         }
         let closed = veh.and_then(|v| v.shifts.get(*si)).is_some_and(|s| s.end.is_some());
-        let kind = *rng.pick(&["any", "sequence", "strict"]);
-        // always a sub-sequence of the feasible tour in visiting order (one entry per activity, so a multi-task job is
-        // listed once per task as E1207 demands)
-        let ids: Vec<String> = match kind {
-            // only simple jobs for every relation type: multi-task jobs are positional in relations (the i-th mention is
-            // the i-th task) and jobs with several places/windows are documented as unsupported in relations
-            "any" => jobs.iter().filter(|j| simple(j) && rng.chance(0.5)).cloned().collect(),
-            "sequence" => jobs.iter().filter(|j| simple(j) && rng.chance(0.6)).cloned().collect(),
-            _ => {
-                // a contiguous run of simple jobs
-                let start = rng.usize_below(jobs.len().max(1));
-                jobs.iter().skip(start).take_while(|j| simple(j)).take(rng.range_usize(1, 4)).cloned().collect()
-            }
+        // mostly one relation per tour; sometimes two, taken from two consecutive parts of the tour (several relations may name
+        // the same vehicle shift; listed in visiting order they are again a sub-sequence of the feasible tour)
+        let parts: Vec<&[String]> = if jobs.len() >= 4 && rng.chance(0.6) {
+            let cut = rng.range_usize(1, jobs.len() - 1);
+            vec![&jobs[..cut], &jobs[cut..]]
+        } else {
+            vec![&jobs[..]]
         };
-        let mut ids = ids;
-        if ids.is_empty() {
-            continue;
-        }
-        if kind == "strict" {
-            // anchors only when the run really touches the tour end
-            if jobs.first() == ids.first() && rng.chance(0.5) {
-                ids.insert(0, "departure".into());
+        let several = parts.len() > 1;
+        for part in parts {
+            // position rules of several relations on one shift are the least exercised combination: strict is drawn more often there
+            let kind = if several { *rng.pick(&["any", "sequence", "strict", "strict", "strict"]) } else { *rng.pick(&["any", "sequence", "strict"]) };
+            // always a sub-sequence of the feasible tour in visiting order (one entry per activity, so a multi-task job is
+            // listed once per task as E1207 demands)
+            let ids: Vec<String> = match kind {
+                // only simple jobs for every relation type: multi-task jobs are positional in relations (the i-th mention is
+                // the i-th task) and jobs with several places/windows are documented as unsupported in relations
+                "any" => part.iter().filter(|j| simple(j) && rng.chance(0.5)).cloned().collect(),
+                "sequence" => part.iter().filter(|j| simple(j) && rng.chance(0.6)).cloned().collect(),
+                _ => {
+                    // a contiguous run of simple jobs
+                    let start = rng.usize_below(part.len().max(1));
+                    part.iter().skip(start).take_while(|j| simple(j)).take(rng.range_usize(1, 4)).cloned().collect()
+                }
+            };
+            let mut ids = ids;
+            if ids.is_empty() {
+                continue;
             }
-            if closed && jobs.last() == ids.last() && rng.chance(0.5) {
-                ids.push("arrival".into());
+            if kind == "strict" {
+                // anchors only when the run really touches the tour end
+                if jobs.first() == ids.first() && rng.chance(0.5) {
+                    ids.insert(0, "departure".into());
+                }
+                if closed && jobs.last() == ids.last() && rng.chance(0.5) {
+                    ids.push("arrival".into());
+                }
             }
+            let mut r = serde_json::Map::new();
+            r.insert("type".into(), json!(kind));
+            r.insert("jobs".into(), json!(ids));
+            r.insert("vehicleId".into(), json!(vid));
+            if *si > 0 || rng.chance(0.3) {
+                r.insert("shiftIndex".into(), json!(si));
+            }
+            rels.push(Value::Object(r));
         }
-        let mut r = serde_json::Map::new();
-        r.insert("type".into(), json!(kind));
-        r.insert("jobs".into(), json!(ids));
-        r.insert("vehicleId".into(), json!(vid));
-        if *si > 0 || rng.chance(0.3) {
-            r.insert("shiftIndex".into(), json!(si));
-        }
-        rels.push(Value::Object(r));
     }
     rels
+}
+
+/// Observes the relation types of a derived relation list, and the type pairs of relations which share a vehicle shift.
+pub fn observe_relations(run: &Run, rels: &[Value]) {
+    for r in rels.iter() {
+        run.observe("relation_types", r["type"].as_str().unwrap_or("?"));
+    }
+    let key = |r: &Value| (r["vehicleId"].as_str().unwrap_or("").to_string(), r["shiftIndex"].as_u64().unwrap_or(0));
+    for (i, a) in rels.iter().enumerate() {
+        for b in rels.iter().skip(i + 1) {
+            if key(a) == key(b) {
+                run.observe("relations_sharing_a_shift", &format!("{}+{}", a["type"].as_str().unwrap_or("?"), b["type"].as_str().unwrap_or("?")));
+            }
+        }
+    }
 }
 
 /// Routing data of a problem read without matrices, as the solver sees it (unscaled, per declared profile).
@@ -382,9 +409,7 @@ pub fn run_end_to_end(run: &Run, prop: &'static str) {
                             let mut gp2 = gp.clone();
                             gp2.problem["plan"]["relations"] = Value::Array(rels.clone());
                             gp2.features.insert("relations".into());
-                            for r in rels.iter() {
-                                run.observe("relation_types", r["type"].as_str().unwrap_or("?"));
-                            }
+                            observe_relations(run, &rels);
                             match read_problem(&gp2) {
                                 ReadOutcome::Ok(p2) => judge_case(run, prop, case_seed, &gp2, &config, &shape, p2, if gp.has("clustering") { "relations+clustering" } else { "relations" }),
                                 ReadOutcome::Err(codes, text) => run.inconclusive(&format!("derived relations rejected: {codes:?} {}", clip(&text, 120))),
@@ -443,9 +468,7 @@ pub fn run_end_to_end(run: &Run, prop: &'static str) {
                             let mut gp2 = gp.clone();
                             gp2.problem["plan"]["relations"] = Value::Array(rels.clone());
                             gp2.features.insert("relations".into());
-                            for r in rels.iter() {
-                                run.observe("relation_types", r["type"].as_str().unwrap_or("?"));
-                            }
+                            observe_relations(run, &rels);
                             match read_problem(&gp2) {
                                 ReadOutcome::Ok(p2) => judge_case(run, prop, case_seed, &gp2, &config, &shape, p2, "relations"),
                                 ReadOutcome::Err(codes, text) => run.inconclusive(&format!("derived relations rejected: {codes:?} {}", clip(&text, 120))),
